@@ -41,6 +41,23 @@ func (E2) StateTypeName() string { return "e2/x" }
 type E3 struct {
 	ID int    `json:"id"`
 	S  string `json:"s"`
+	P  PStamp `json:"p"`
+}
+
+// PStamp has its JSON codec on the POINTER receiver: it is used only where the value is addressable (as it is when the
+// helpers are handed the entity the way they take it today)
+type PStamp struct{ N int }
+
+func (p *PStamp) MarshalJSON() ([]byte, error) { return []byte(fmt.Sprintf(`"ps:%d"`, p.N)), nil }
+func (p *PStamp) UnmarshalJSON(b []byte) error {
+	var str string
+	if err := json.Unmarshal(b, &str); err != nil {
+		return err
+	}
+	if _, err := fmt.Sscanf(str, "ps:%d", &p.N); err != nil {
+		return fmt.Errorf("bad stamp %q", str)
+	}
+	return nil
 }
 
 // E4 is never registered; E5 has an `id` that does not decode into E1..E3.
@@ -91,7 +108,7 @@ func mkE3(v int) E3 {
 	if v >= 1000 { // written as the id-only type E4
 		return E3{ID: v}
 	}
-	return E3{ID: v, S: namePool[v%len(namePool)]}
+	return E3{ID: v, S: namePool[v%len(namePool)], P: PStamp{N: v % 7}}
 }
 
 func mkE1(v int) E1 {
